@@ -520,41 +520,36 @@ def rule_parens(crate):
     threshold = built["FunctionCall"]
     operator_levels = {v: d for v, d in built.items() if d < threshold}
     n = 0
-    m = None
-    for x in walk(wp["body"]):
-        if x.get("k") == "Match" and str(x.get("src")) == "Normal":
-            m = x
-            break
-    if m is None:
-        out.error("anchor missing: match in typed_ast::with_parens")
+    from wpeval import evaluate
+
+    variants = [x["name"] for x in crate.adt(TYPED_E)["variants"]]
+    table, ev, why = evaluate(crate, wp, variants)
+    if table is None:
+        out.error("anchor missing: " + why)
         return out
-    for a in m["arms"]:
-        vs = pat_variants(a["pat"], TYPED_E)
-        body = peel(a["body"])
-        bare = not any(y.get("k") == "Lit" and isinstance(y.get("lit"), dict) and y["lit"].get("v") == "(" for y in walk(body))
-        af, al = crate.loc(wp, a["pat"])
-        if vs is None:
-            n += 1
-            if bare:
-                out.violation("with_parens:catch-all", af, al, "the catch-all arm of with_parens prints the operand without parentheses")
-            else:
-                out.ok("with_parens:catch-all", af, al, "everything else is parenthesised")
+    bare_variants = set()
+    for v in variants:
+        n += 1
+        rows = table[v]
+        bare_rows = [r for r in rows if r[1] == "bare"]
+        node = (bare_rows or rows)[0][2]
+        af, al = crate.loc(wp, node)
+        av = PARENS_RENAMES.get(v, (v,))[0]
+        key = "with_parens:%s" % v
+        if not bare_rows:
+            out.ok(key, af, al, "parenthesised (in all %d case(s))" % len(rows))
             continue
-        for v in sorted(vs):
-            n += 1
-            av = PARENS_RENAMES.get(v, (v,))[0]
-            key = "with_parens:%s" % v
-            if not bare:
-                out.ok(key, af, al, "parenthesised")
-            elif av not in built:
-                out.advisory(key, af, al, "printed bare; the parser builds no Expression::%s (not decided)" % av)
-            elif built[av] >= threshold:
-                out.ok(key, af, al, "printed bare; built by the parser at depth %d >= call level %d" % (built[av], threshold))
-            else:
-                out.violation(key, af, al, "Expression::%s is printed without parentheses in operand position, but the parser builds it at an operator level (depth %d, above the call level %d): next to another operator the echoed text is re-read with a different structure (e.g. `(3!)!` echoed as `3!!`)" % (v, built[av], threshold))
+        bare_variants.add(v)
+        if av not in built:
+            out.advisory(key, af, al, "printed bare; the parser builds no Expression::%s (not decided)" % av)
+        elif built[av] >= threshold:
+            out.ok(key, af, al, "printed bare; built by the parser at depth %d >= call level %d" % (built[av], threshold))
+        else:
+            out.violation(key, af, al, "Expression::%s is printed without parentheses in operand position, but the parser builds it at an operator level (depth %d, above the call level %d): next to another operator the echoed text is re-read with a different structure (e.g. `(3!)!` echoed as `3!!`)" % (v, built[av], threshold))
     # ---- sugar forms: a kind that with_parens leaves bare must not PRINT as an operator expression.  In the printing
     # arm of such a kind, an emitted operator/keyword whose token is consumed by a level looser than `call` (->, +, …)
-    # is allowed only for the callee names that with_parens (or a predicate it calls in a guard) parenthesises.
+    # is allowed only for the callee names that with_parens parenthesises: the names tested by a condition of
+    # with_parens which, when true, leads to parentheses for every kind of expression.
     op_kinds = set()
     for nm, lv in levels.items():
         if nm in depth and depth[nm] < threshold:
@@ -572,15 +567,20 @@ def rule_parens(crate):
                 out_.add(y["lit"]["v"])
         return out_
 
-    # names parenthesised by with_parens: literals in guards of non-bare arms and in crate-local predicates they call
     paren_names = set()
-    for a in m["arms"]:
-        body = peel(a["body"])
-        bare = not any(y.get("k") == "Lit" and isinstance(y.get("lit"), dict) and y["lit"].get("v") == "(" for y in walk(body))
-        if bare or "guard" not in a:
+    for name, node in ev.atoms.items():
+        forces = True
+        seen = False
+        for v in variants:
+            for (asg, res, _n) in table[v]:
+                if asg.get(name) is True:
+                    seen = True
+                    if res != "paren":
+                        forces = False
+        if not (seen and forces):
             continue
-        paren_names |= str_lits(a["guard"])
-        for y in walk(a["guard"]):
+        paren_names |= str_lits(node)
+        for y in walk(node):
             if y.get("k") in ("Call", "MethodCall"):
                 cb = crate.hir.get(callee(y) or "")
                 if cb is not None:
@@ -590,13 +590,6 @@ def rule_parens(crate):
                             cb2 = crate.hir.get(callee(z) or "")
                             if cb2 is not None:
                                 paren_names |= str_lits(cb2["body"])
-    bare_variants = set()
-    for a in m["arms"]:
-        vs = pat_variants(a["pat"], TYPED_E)
-        body = peel(a["body"])
-        bare = not any(y.get("k") == "Lit" and isinstance(y.get("lit"), dict) and y["lit"].get("v") == "(" for y in walk(body))
-        if vs and bare:
-            bare_variants |= vs
     n_sugar = 0
     if printers:
         pfn = printers[0]
@@ -812,13 +805,118 @@ def rule_readable(crate):
 
 
 # ---------------------------------------------------------------- OPERANDS: which operands the printer leaves bare
-def _closure_bare_set(crate, clos, all_kinds):
+def _op_set(crate, e, op, inits, op_id, depth=0):
+    """value of a data-driven operator set (`&[BinaryOperator::Power, …]`, possibly chosen by `if matches!(op, …)` /
+    `match op {…}`) for the operator `op` of the enclosing arm; None when the expression is not understood"""
+    from hirlib import pat_variants
+
+    e = peel_refs(peel(e))
+    k = e.get("k")
+    if depth > 6:
+        return None
+    if k == "Block" and not e.get("stmts") and e.get("tail") is not None:
+        return _op_set(crate, e["tail"], op, inits, op_id, depth + 1)
+    if k == "Array":
+        vals = set()
+        for el in e.get("elems", []):
+            el = peel_refs(peel(el))
+            v = el["res"].get("variant") if el.get("k") == "Path" else None
+            if v is None:
+                return None
+            vals.add(v)
+        return vals
+    if k == "Path" and e["res"].get("r") == "local" and e["res"]["id"] in inits:
+        return _op_set(crate, inits[e["res"]["id"]], op, inits, op_id, depth + 1)
+
+    def arm_hits(a):
+        vs = pat_variants(a["pat"], BINOP)
+        return vs is None or op in vs
+
+    if k == "If" and e.get("else") is not None:
+        c = peel(e["cond"])
+        if c.get("k") == "Match" and local_of_(c["scrut"]) == op_id and len(c["arms"]) == 2 and op is not None:
+            first = c["arms"][0]
+            vs = pat_variants(first["pat"], BINOP)
+            b = peel(first["body"])
+            if vs is not None and b.get("k") == "Lit" and b["lit"].get("v") in (True, "true"):
+                return _op_set(crate, e["then"] if op in vs else e["else"], op, inits, op_id, depth + 1)
+        return None
+    if k == "Match" and local_of_(e["scrut"]) == op_id and op is not None:
+        for a in e["arms"]:
+            if "guard" in a:
+                return None
+            if arm_hits(a):
+                return _op_set(crate, a["body"], op, inits, op_id, depth + 1)
+    return None
+
+
+def local_of_(e):
+    from hirlib import local_of
+
+    return local_of(peel_refs(peel(e)))
+
+
+def _match_bare_set(crate, m, all_kinds, op, inits, op_id, is_bare):
+    """`|expr| match expr { P [if S.contains(inner_op)] => A, …, _ => B }`"""
+    remaining = list(all_kinds)
+    bare = set()
+    for a in m["arms"]:
+        hit = None  # kinds this arm takes out of `remaining`
+        top = a["pat"]
+        while top.get("k") == "Ref":
+            top = top["pat"]
+        structs = [p for p in walk(top) if p.get("k") in ("Struct", "TupleStruct") and (p.get("adt") or "") == TYPED_E and p.get("variant")]
+        if not structs:
+            if any(p.get("k") in ("Struct", "TupleStruct", "Lit", "Path") for p in walk(top)):
+                return None
+            hit = set(remaining)  # `_` / a binding
+            if "guard" in a:
+                return None
+        else:
+            hit = set()
+            for p in structs:
+                v = p["variant"]
+                if v not in ("BinaryOperator", "BinaryOperatorForDate"):
+                    hit |= {kd for kd in remaining if kd == v}
+                    continue
+                ops = {q.get("variant") for q in walk(p) if (q.get("adt") or "") == BINOP and q.get("variant")}
+                if ops:
+                    hit |= {kd for kd in remaining if kd.split(":")[0] == v and kd.split(":")[1] in ops}
+                else:
+                    hit |= {kd for kd in remaining if kd.split(":")[0] == v}
+            if "guard" in a:
+                g = peel(a["guard"])
+                # `S.contains(inner_op)` with inner_op bound to the `op` field of the pattern
+                op_bind = set()
+                for p in structs:
+                    for it in p.get("fields", []) or []:
+                        if isinstance(it, list) and len(it) == 2 and str(it[0]) == "op":
+                            op_bind |= {q["id"] for q in walk(it[1]) if q.get("k") == "Binding"}
+                if not (g.get("k") == "MethodCall" and g["name"] == "contains" and g["args"] and local_of_(g["args"][0]) in op_bind):
+                    return None
+                allowed = _op_set(crate, g["recv"], op, inits, op_id)
+                if allowed is None:
+                    return None
+                hit = {kd for kd in hit if ":" in kd and kd.split(":")[1] in allowed}
+        if is_bare(a["body"]):
+            bare |= hit
+        remaining = [kd for kd in remaining if kd not in hit]
+    return bare
+
+
+def _closure_bare_set(crate, clos, all_kinds, op=None, inits=None, op_id=None):
     """kinds of expression a `|expr| if matches!(expr, P) {A} else {B}` closure prints WITHOUT parentheses"""
     from hirlib import pat_variants
 
     body = peel(clos["body"])
     if body.get("k") == "Block" and body.get("tail") is not None and not body.get("stmts"):
         body = peel(body["tail"])
+
+    def is_bare(e):
+        return not any((callee(y) or "").endswith(("typed_ast::with_parens", "typed_ast::with_parens_liberal")) for y in walk(e) if y.get("k") == "Call")
+
+    if body.get("k") == "Match" and str(body.get("src")) == "Normal":
+        return _match_bare_set(crate, body, all_kinds, op, inits or {}, op_id, is_bare)
     if body.get("k") != "If" or body.get("else") is None:
         return None
     cond = peel(body["cond"])
@@ -844,9 +942,6 @@ def _closure_bare_set(crate, clos, all_kinds):
                         pats.add("%s:%s" % (v, o))
                 else:
                     pats.add(v)
-
-    def is_bare(e):
-        return not any((callee(y) or "").endswith(("typed_ast::with_parens", "typed_ast::with_parens_liberal")) for y in walk(e) if y.get("k") == "Call")
 
     then_bare, else_bare = is_bare(body["then"]), is_bare(body["else"])
     if then_bare and not else_bare:
@@ -945,26 +1040,44 @@ def rule_operands(crate, dispositions=None):
         for st in walk(a["body"]):
             if st.get("k") == "Let" and st.get("init") is not None and peel(st["init"]).get("k") == "Closure" and st["pat"].get("k") == "Binding":
                 closures[st["pat"]["id"]] = peel(st["init"])
-        for side, sid in (("lhs", lhs_id), ("rhs", rhs_id)):
-            bare = None  # set of kinds printed bare, over all printing sites of this operand in the arm
+        arm_inits = {}
+        for st in walk(a["body"]):
+            if st.get("k") == "Let" and st.get("init") is not None and st["pat"].get("k") == "Binding":
+                arm_inits[st["pat"]["id"]] = st["init"]
+
+        def bare_for(sid, op):
+            """kinds printed bare over all printing sites of this operand in the arm, for operator `op`;
+            "?" when a closure's shape is not understood"""
+            bare = None
             for c in walk(a["body"]):
                 if c.get("k") == "Call" and c.get("args") and local_of(c["args"][0]) == sid:
                     cal = callee(c) or ""
                     fl = local_of(c["f"]) if c["f"].get("k") == "Path" else None
                     if fl in closures:
-                        bs = _closure_bare_set(crate, closures[fl], all_kinds)
-                        bare = (bare or set()) | (bs if bs is not None else set(all_kinds))
+                        bs = _closure_bare_set(crate, closures[fl], all_kinds, op, arm_inits, ids[0])
+                        if bs is None:
+                            return "?"
+                        bare = (bare or set()) | bs
                     elif cal.endswith("typed_ast::with_parens"):
                         bare = bare or set()
                     elif cal.endswith("typed_ast::with_parens_liberal"):
                         bare = (bare or set()) | {"~quantity-literal"}
                 elif c.get("k") == "MethodCall" and c["name"] == "pretty_print" and local_of(c["recv"]) == sid:
                     bare = set(all_kinds)
-            if bare is None:
-                continue
+            return bare
+
+        for side, sid in (("lhs", lhs_id), ("rhs", rhs_id)):
             for op in ops:
                 d = op_depth.get(op)
                 if d is None:
+                    continue
+                bare = bare_for(sid, op)
+                if bare is None:
+                    continue
+                if bare == "?":
+                    n += 1
+                    af, al = crate.loc(fn, a["pat"])
+                    out.advisory("binop:%s:%s" % (op, side), af, al, "the closure that decides about parentheses for the %s operand of %s has a shape this rule does not evaluate; not decided" % (side, op))
                     continue
                 n += 1
                 af, al = crate.loc(fn, a["pat"])
